@@ -7,6 +7,7 @@ CONSTANTS
   KeyMode = "term_value"
   HashMode = "code"
   NearPairs = FALSE
+  EqMode = "structural"
   ProvTags = 1
   WideProv = FALSE
 CONSTRAINT Export
